@@ -16,6 +16,8 @@ OBLIGATIONS = [
     (P + "normalize_bytes_from_input", "every byte of normalize p is a byte of p or '/' (so a NUL-free request stays NUL-free)"),
     (P + "is_file_prefix_iff_component_prefix", "for canonical p, f: is_file_prefix p f <-> components of p are a list prefix of the components of f ('/al' does not match '/alX')"),
     (P + "alias_choice_component_wise", "the alias loop picks the first alias whose (canonical) url is a component-wise prefix of the normalised request, else the document root; the remainder is canonical"),
+    (P + "constructor_establishes_roots", "an accepted configuration stores only realpath answers as roots (RootsCanonical and NUL-freeness are established by the constructor)"),
+    (P + "constructor_refuses_unresolvable_alias", "an alias whose target realpath cannot resolve makes the constructor throw: no instance, nothing served, never an alias with an empty root"),
     (P + "served_inside_root_symlinks", "check_symlink on: whatever main opens (file or directory) is a realpath answer for root//rest of the chosen root and has that root as component-wise prefix"),
     (P + "served_lexical_no_symlink_check", "check_symlink off: whatever main opens is root ++ rest (as a std::string) with rest canonical (no '..'), root the chosen root"),
     (P + "served_lexical_cstring", "check_symlink off and NUL-free PATH_INFO/index/roots: the C string the kernel gets is that same root ++ rest"),
@@ -89,6 +91,16 @@ def build_sandbox(scratch):
     os.symlink(b"../../secret.txt", r(b"pub", b"index.html"))
     os.symlink(b"../a.txt", r(b"pubin", b"index.html"))
     os.symlink(b"../../../outdir/o1.txt", r(b"sub", b"pub2", b"index.html"))
+    # index.html -> a DIRECTORY outside / inside (an out-parameter overwritten by a rejected resolution must not be listed)
+    os.makedirs(r(b"pubd")); os.makedirs(r(b"pubdin"))
+    mk(r(b"pubd", b"own.txt"), b"IN:pubd-own")
+    mk(r(b"pubdin", b"own.txt"), b"IN:pubdin-own")
+    os.symlink(b"../../outdir", r(b"pubd", b"index.html"))
+    os.symlink(b"../sub", r(b"pubdin", b"index.html"))
+    # links to a character device: never "the contents of a regular file" (only /dev/null: no endless stream)
+    os.symlink(b"/dev/null", r(b"ln_devnull"))
+    os.makedirs(r(b"devidx"))
+    os.symlink(b"/dev/null", r(b"devidx", b"index.html"))
     # entry names drawn from everything that matters inside markup, an attribute value or a URL
     for i, nm in enumerate((b"it's here.txt", b"x' onmouseover='alert(1)", b'q"uote.txt', b"a&b.txt", b"a&amp;b.txt", b"l<t.txt", b"g>t.txt",
                             b"sp ace.txt", b"pc%41.txt", b"pc%27.txt", b"q?m.txt", b"h#sh.txt", b"uni\xc3\xa9.txt", b"\xff\xfe.bin", b"!*().txt",
@@ -144,19 +156,25 @@ def alias_sets(sb):
         [(b"/al/", a1)],                      # non-canonical url (config "/al//"): matches, then always 404
         [(b"/alX", a2), (b"/al", a1)],
         [(b"/sub", a1)],                      # alias shadowing a real directory of the document root
+        [(b"/media", sb["T"] + b"/missing")],             # target unresolvable at start-up: the constructor must refuse
+        [(b"/al", a1), (b"/media", sb["T"] + b"/missing/deeper")],
     ]
 
 
-def cfg_line(sym, lst, asy, root, aliases, index=IDX):
+def cfg_line(sym, lst, asy, root, aliases, index=IDX, rp=None):
+    """rp: libc realpath answers (recorded by the harness) for the configured paths, for the model's constructor"""
     al = ",".join(hexs(u) + ":" + hexs(t) for u, t in aliases) if aliases else "-"
-    return f"cfg {int(sym)} {int(lst)} {int(asy)} {hexs(root)} {al} {hexs(index)}"
+    tab = ""
+    if rp is not None:
+        tab = "".join(f" R:{hexs(p)}={hexs(rp[p]) if rp[p] is not None else '!'}" for p in dict.fromkeys([root] + [t for _, t in aliases]))
+    return f"cfg {int(sym)} {int(lst)} {int(asy)} {hexs(root)} {al} {hexs(index)}{tab}"
 
 
 # --------------------------------------------------------------------------- generators
 NAMES = [b"a.txt", b"sub", b"sub2", b"inner", b"b.txt", b"c.txt", b"index.html", b".hidden", b".hdir", b"h.txt", b".dot",
          b"al", b"alX", b"ac", b"x.txt", b"y.txt", b"w.txt", b"deep", b"d.txt", b"ln_in", b"ln_out", b"ln_file_out", b"ln_file_in",
          b"ln_abs_in", b"ln_rootX", b"ln_al1", b"ln_dangling", b"ln_loop", b"ln_up", b"ln_upup", b"o1.txt", b"o2.txt",
-         b"secret.txt", b"outdir", b"rootX", b"rx.txt", b"root", b"al1", b"al2", b"top.txt", b"unlinked", b"u.txt", b"al1x", b"leak.txt", b"pub", b"pubin", b"pub2", b"names", b"it's here.txt", b"d'ir", b"other.txt", b"t1.txt", b"t2.txt", b"u.txt", b"v.txt",
+         b"secret.txt", b"outdir", b"rootX", b"rx.txt", b"root", b"al1", b"al2", b"top.txt", b"unlinked", b"u.txt", b"al1x", b"leak.txt", b"pub", b"pubin", b"pub2", b"pubd", b"pubdin", b"ln_devnull", b"devidx", b"own.txt", b"media", b"names", b"it's here.txt", b"d'ir", b"other.txt", b"t1.txt", b"t2.txt", b"u.txt", b"v.txt",
          b"other", b"x", b"ln_root", b"ln_secret", b"fifo", b"sock", b"sockdir", b"empty", b"idxdir", b"q.txt", b"...", b"..x",
          b"t.txt", b"z.txt", b"we<ird>&'\"n.txt", b"sp ace.txt", b"\xff\xfe.bin", b"uni\xc3\xa9.txt", b"a+b%41.txt", b"<b>dir",
          b"in<.txt", b"amp&lt;.txt", b"q?x.txt", b"tab\tnl.txt", b"nosuch"]
@@ -255,7 +273,7 @@ MALFORMED = [b"/%", b"/%4", b"/%zz/a.txt", b"/a.txt%", b"/%2", b"/sub%2", b"/a%2
              b"/..x/", b"/..x/t.txt", b"/%ff%fe.bin", b"/\xff\xfe.bin", b"/a.txt?/../../secret.txt", b"/?", b"/sub?x", b"/we%3Cird%3E%26%27%22n.txt",
              b"/q%3fx.txt", b"/tab%09nl.txt", b"/ln_abs_in/", b"/ln_abs_in/z.txt", b"/ln_in/b.txt", b"/ln_in", b"/ln_file_in", b"/root/a.txt", b"/../root/a.txt",
              b"/../rootX/rx.txt", b"/..../", b"/sub/.../", b"/pub/", b"/pub", b"/pub/index.html", b"/pubin/", b"/pubin", b"/sub/pub2/", b"/sub/pub2", b"/al/pub/", b"/al/pub",
-             b"/ln_in/pub2/", b"/names/", b"/names", b"/names/d%27ir/", b"/names/it%27s%20here.txt", b"/names/%3ci%3edir/", b"/al/deep/al/t1.txt", b"/al/al/t1.txt", b"/al/deep/al/deep/v.txt", b"/al/deep/al/", b"/alX/al/t1.txt", b"/other/x/al/t1.txt",
+             b"/ln_in/pub2/", b"/pubd/", b"/pubd", b"/pubdin/", b"/pubdin", b"/ln_devnull", b"/ln_devnull/", b"/devidx/", b"/devidx", b"/devidx/index.html", b"/names/", b"/names", b"/names/d%27ir/", b"/names/it%27s%20here.txt", b"/names/%3ci%3edir/", b"/al/deep/al/t1.txt", b"/al/al/t1.txt", b"/al/deep/al/deep/v.txt", b"/al/deep/al/", b"/alX/al/t1.txt", b"/other/x/al/t1.txt",
              b"/../top.txt", b"/../unlinked/u.txt", b"/../unlinked/", b"/al/x/leak.txt", b"/al/../al1x/leak.txt",
              b"/%2e%2e/top.txt", b"/sub/../../top.txt", b"/al/%2e%2e/%2e%2e/top.txt", b"/" + b"a/" * 3000, b"/" + b"../" * 2000 + b"secret.txt", b"/" + b"sub/ln_up/" * 400 + b"a.txt",
              b"/" + b"x" * 300, b"/sub/" + b"y" * 5000,
@@ -283,7 +301,7 @@ def py_urldecode(t):
     return bytes(out)
 
 
-ENUM_SEGS = [b"sub", b"..", b".", b"", b"ln_out", b"al", b"alX", b"a.txt", b"index.html", b"ln_up", b"deep", b"..%00", b"pub"]
+ENUM_SEGS = [b"sub", b"..", b".", b"", b"ln_out", b"al", b"alX", b"a.txt", b"index.html", b"ln_up", b"deep", b"..%00", b"pub", b"pubd"]
 
 
 def enum_targets(depth):
@@ -429,6 +447,16 @@ def main():
     T = sb["T"]
     markers = all_files(T)
     ASETS = alias_sets(sb)
+    cfg_paths = list(dict.fromkeys([sb["root"]] + [t for a in ASETS for _, t in a]))
+    rc_, rp_out, err_ = c.run_lines(hbin, ["rp " + hexs(p) for p in cfg_paths])
+    if rc_ != 0 or len(rp_out) != len(cfg_paths):
+        c.broke("harness rp stage", err_[-500:])
+        c.finish()
+    RP = {p: (None if o == "!" else unhex(o)) for p, o in zip(cfg_paths, rp_out)}
+    # absolute paths of files no root contains, requested below an alias url (an alias registered with an empty
+    # root would resolve them from the file-system root)
+    ABS_TARGETS = [u + p for u in (b"/media", b"/al", b"") for p in
+                   (T + b"/top.txt", T + b"/unlinked/u.txt", T + b"/unlinked/", T + b"/secret.txt", b"/etc/passwd", b"/etc/", T + b"/root/a.txt")]
     viol = []      # (what, replay dict) of the per-configuration streams, emitted at the end
     unit_viol = []  # same for the norm / prefix streams
 
@@ -510,17 +538,19 @@ def main():
     else:
         # every (sym, listing) pair with alias sets 1 and 3 (sync and async alternate), plus seed-chosen others
         cfgs = [(s, l, (i + 2 * j) % 3, k) for i, (s, l) in enumerate(((1, 1), (1, 0), (0, 1), (0, 0))) for j, k in enumerate((1, 3))]
+        cfgs += [(1, 1, 0, 8), (0, 1, 2, 9)]       # alias target missing at start-up: the constructor must refuse
         for s_ in (1, 0):
             rest = [x for x in all_cfgs if x not in cfgs and x[0] == s_]
             cfgs += rng.sample(rest, 3)
     nreq = 500 if thorough else 320
     ncidr = 300 if thorough else 200
-    dist = {"404": 0, "file": 0, "list": 0, "redirect": 0, "cidr-ok": 0, "cidr-none": 0}
+    dist = {"404": 0, "file": 0, "list": 0, "redirect": 0, "closed": 0, "cidr-ok": 0, "cidr-none": 0}
     sample_done = False
     for (sym, lst, asy, k) in cfgs:
         aliases = ASETS[k]
         index = IDX if (k != 2 or not lst) else b"z.txt"
-        cl = cfg_line(sym, lst, asy, sb["root"], aliases, index)
+        cl = cfg_line(sym, lst, asy, sb["root"], aliases, index, rp=RP)
+        expect_refused = any(RP[t] is None for _, t in aliases)
         roots = [sb["root"]] + [t for _, t in aliases]
         if replay:
             targets = [unhex(replay["case"].split()[1])] if replay["stream"] == "req" else []
@@ -535,7 +565,7 @@ def main():
                         if line and not line.startswith("#"):
                             corpus.append(unhex(line))
             enum = enum_targets(3 if thorough else 2)
-            targets = gen_targets(rng, sb, aliases, nreq + len(MALFORMED) + len(corpus) + len(enum), first=corpus + MALFORMED + enum)
+            targets = gen_targets(rng, sb, aliases, nreq + len(MALFORMED) + len(corpus) + len(enum), first=corpus + ABS_TARGETS + MALFORMED + enum)
             fnames = list(dict.fromkeys([py_urldecode(t) for t in rng.sample(targets, min(len(targets), ncidr // 2))] +
                                         [b"/".join(gen_segments(rng, sb, aliases)) if rng.random() < 0.3 else b"/" + b"/".join(gen_segments(rng, sb, aliases))
                                          for _ in range(ncidr // 2)] +
@@ -543,7 +573,10 @@ def main():
         # stage A: libc answers for every path the file server may consult
         qa = [cl] + ["fs " + hexs(f) for f in fnames] + ["fst " + hexs(t) for t in targets]
         rc, tabs, err = c.run_lines(hbin, qa)
-        if rc != 0 or len(tabs) != len(qa) or tabs[0] != "ok":
+        if tabs[:1] in (["ok"], ["refused"]) and tabs[0] != ("refused" if expect_refused else "ok"):
+            c.log(f"configuration sym={sym} list={lst} async={asy} aliases#{k}: constructor answered {tabs[0]!r}, expected "
+                  f"{'refused' if expect_refused else 'ok'} (alias target unresolvable: {expect_refused})")
+        if rc != 0 or len(tabs) != len(qa) or tabs[0] not in ("ok", "refused"):
             c.violation("harness died / service did not start while recording the file-system answers",
                         {"stream": "req", "cfg": [sym, lst, asy, k], "case": qa[len(tabs)] if len(tabs) < len(qa) else qa[0], "stderr": err,
                          "first_output": tabs[:1]}, concrete=(rc != 0 and len(tabs) > 0))
@@ -589,14 +622,18 @@ def main():
                 kind = o.split()[0] if o else "?"
                 if kind in dist:
                     dist[kind] += 1
-                if i < len(out_m) and out_m[i].split()[:1] not in (["404"], ["MISS"], []):
+                if expect_refused and kind != "closed":
+                    viol.append(("request answered although the constructor must refuse this configuration (an alias target cannot be resolved): "
+                                 "the alias is live with a bogus root", {"stream": "req", "cfg": cfgkey, "case": short, "impl_output": o[:400]}))
+                if i < len(out_m) and out_m[i].split()[:1] not in (["404"], ["MISS"], ["closed"], []):
                     c.nontrivial.add((tuple(cfgkey), short))
                 if kind == "file":
                     body = unhex(o.split()[1]) if len(o.split()) > 1 else b""
                     src = markers.get(body)
                     what = None
                     if src is None:
-                        what = "reply body is not the content of any single file of the sandbox"
+                        what = ("200 reply whose body is not the content of any regular file of the sandbox "
+                                "(every regular file there has a unique marker: a device, a foreign file or an empty/garbled stream was served)")
                     elif sym and not any(under(os.path.realpath(r), src) for r in roots):
                         what = "file outside every configured root served with symlink checking on"
                     elif not sym and src not in reach_cache(roots)[0]:
@@ -645,6 +682,8 @@ def main():
                     if b"\r" not in pinfo and b"\n" not in pinfo and loc != pinfo + b"/":
                         viol.append(("redirect to something other than the request path plus '/'",
                                      {"stream": "req", "cfg": cfgkey, "case": short, "impl_output": o[:400]}))
+                elif kind == "closed" and expect_refused:
+                    pass
                 elif kind != "404":
                     viol.append((f"unexpected reply kind {kind!r} (status other than 200/302/404, garbled or no reply)",
                                  {"stream": "req", "cfg": cfgkey, "case": short, "impl_output": o[:400]}))
@@ -670,7 +709,9 @@ def main():
     # most telling first: end-to-end replies that leak something, then the unit-level predicates
     def prio(w):
         w = w[0]
-        return 0 if "served" in w or "listing of a directory outside" in w else 1 if "listing" in w else 2
+        if "served" in w or "listing of a directory outside" in w or "200 reply" in w:
+            return 0
+        return 1 if "must refuse" in w else 2 if "listing" in w else 3
     allv = sorted(viol, key=prio) + unit_viol
     counts = {}
     for what, rp in allv:
